@@ -78,6 +78,18 @@ CHECKS["C02"] = (
     "DESIGN.md §6 C02",
 )
 
+CHECKS["C03"] = (
+    "Lean 4 theorems for every match tree: the indent values at the leaves of a materialised tree are exactly the inserts of the "
+    "match result (apply neither invents, drops nor duplicates markers), a bracket pair is neutral, spans are (min,max) of "
+    "children by construction. The decidable statement specC03 (spans, child order, no whitespace/comment at node ends, running "
+    "balance >= 0, final balance 0) is evaluated in Lean on every real tree of fixtures, truncations and generated templates. "
+    "Partial: that grammars emit balanced inserts is observed on real trees, not yet proved from the grammar definitions; "
+    "partial-match returns of Sequence.match are a listed known finding attributed by instrumentation.",
+    "Lean 4 proof (indent accounting by induction) + Lean-evaluated tree specification on real parser output",
+    "Lean kernel; standard axioms; grammar behaviour unmodelled (sampled); known finding keyed by call site",
+    "DESIGN.md §6 C03",
+)
+
 NOT_YET = {}
 
 
